@@ -559,7 +559,6 @@ func fmtInt(i int) string {
 
 func init() { register("C02", checkC02) }
 
-
 // handedOutInLoop: the write is inside a loop, its base storage is defined outside that loop, and the
 // same storage is passed to a (non-builtin) call inside the loop. Returns that call.
 func handedOutInLoop(write ssa.Instruction, base ssa.Value) ssa.CallInstruction {
@@ -641,7 +640,6 @@ func storageRootD(v ssa.Value, depth int) ssa.Value {
 	}
 	return nil
 }
-
 
 // writesParam: the function (or one it hands the parameter to) writes into the storage of its parameter number idx:
 // element store, map update, delete, copy destination, clear, or append (which writes into spare capacity).
@@ -733,7 +731,6 @@ func writesParam(fn *ssa.Function, idx int, seen map[*ssa.Function]bool, depth i
 	}
 	return false
 }
-
 
 // handedOutBefore: the storage the write goes to was passed, earlier on some path through the function, to a
 // call that can retain it (a function value, an interface method, or a module function that stores or returns
@@ -875,7 +872,6 @@ func paramEscapes(p *ssa.Parameter, seen map[*ssa.Function]bool, depth int) bool
 	}
 	return esc(p, 0)
 }
-
 
 // updatesRegistry: f (or a closure in it) calls the environment's Update method (the registry update).
 func updatesRegistry(f *ssa.Function) bool {
